@@ -354,3 +354,70 @@ def widget_z_index(m, meta):
     if "z_index" in tw._ti_style_args or hasattr(tw, "_ti_z_index"):
         problems.append("a text image widget took a z-index")
     return {"reproduced": bool(problems), "input": "kitty image widgets with format specifiers '', '+z5' (twice), '+z-7', '+L', '+Wz1'", "observed": problems[:4]}
+
+
+def shard_walk(m, meta, budget=600):
+    """BOUNDED stand-in for the assumed half of the walk-step unit: the positions `_ti_clear_images` records for image views against
+    urwid's own shard semantics (`urwid.canvas.shard_body` / `shard_body_tail`), on layouts built by urwid itself (`CanvasJoin` of
+    `CanvasCombine`s of image and text canvases, 1-3 columns of 1-3 canvases, widths 1-3, heights 1-3)."""
+    import itertools, random
+    import tests  # noqa: F401
+    import urwid
+    from urwid import canvas as uc
+    from term_image.image import KittyImage
+    from term_image.widget import UrwidImageScreen
+    from term_image.widget._urwid import UrwidImageCanvas
+    KittyImage._supported = True
+    problems, n = [], 0
+    rnd = random.Random(1)
+
+    class W:
+        pass
+
+    def leaf(cols, rows, image):
+        if image:
+            c = UrwidImageCanvas("\n".join([" " * cols] * rows), (cols, rows), (cols, rows))
+            w = W()
+            w._ti_image = object.__new__(KittyImage)
+            c._widget_info = (w, (cols, rows), False)
+            return c
+        return urwid.TextCanvas([b" " * cols] * rows, maxcol=cols)
+    shapes = [[(h, rnd.random() < 0.6) for h in hs] for k in (1, 2, 3) for hs in itertools.product((1, 2, 3), repeat=k)]
+    combos = [c for k in (1, 2, 3) for c in itertools.product(range(len(shapes)), repeat=k)]
+    rnd.shuffle(combos)
+
+    class Scr(UrwidImageScreen):
+        def __del__(self):
+            pass
+    screen = object.__new__(Scr)
+    for combo in combos[:budget]:
+        widths = [rnd.choice((1, 2, 3)) for _ in combo]
+        cols_canv = []
+        for ci, wd in zip(combo, widths):
+            cols_canv.append(urwid.CanvasCombine([(leaf(wd, h, img), None, False) for h, img in shapes[ci]]))
+        height = max(c.rows() for c in cols_canv)
+        joined = urwid.CanvasJoin([(c, None, False, c.cols()) for c in cols_canv]) if len(cols_canv) > 1 else urwid.CompositeCanvas(cols_canv[0])
+        n += 1
+        # oracle: urwid's own shard bodies
+        want = set()
+        tail, row = [], 1
+        for num_rows, cviews in joined.shards:
+            body = uc.shard_body(cviews, tail, False)
+            col = 1
+            for done_rows, _it, cview in body:
+                if done_rows == 0 and isinstance(cview[5], UrwidImageCanvas):
+                    want.add((cview[5], row, col, cview[0], cview[1], cview[2], cview[3]))
+                col += cview[2]
+            tail = uc.shard_body_tail(num_rows, body)
+            row += num_rows
+        screen._ti_screen_canv = joined
+        screen._ti_image_cviews = frozenset()
+        screen.clear_images = lambda *a, **k: None
+        screen._ti_clear_images()
+        got = set(screen._ti_image_cviews)
+        if got != want:
+            pos = lambda st: sorted((r, c, tl, tt, cs, rs) for _, r, c, tl, tt, cs, rs in st)
+            problems.append({"columns": [[(wd, h, img) for h, img in shapes[ci]] for ci, wd in zip(combo, widths)], "recorded": pos(got), "urwid": pos(want)})
+            if len(problems) >= 3:
+                break
+    return {"reproduced": bool(problems), "input": f"{n} layouts (<= 3 columns of <= 3 canvases, widths and heights 1..3)", "observed": problems}
